@@ -124,7 +124,10 @@ Row(o, r) == [obj |-> o, st |-> r.st, natt |-> Len(r.atts), last |-> LastOf(r), 
               s |-> IF r.st = NS THEN 0 ELSE 1, e |-> IF Terminal(r.st) THEN 1 ELSE 0]
 SnapSeq(d) == SetToSeq({Row(o, d[o]) : o \in DOMAIN d})
 
-EvW(o) == [ev |-> "W", obj |-> o, k |-> KindOf(o), st |-> mem[o].st, natt |-> Len(mem[o].atts), last |-> LastOf(mem[o]), aok |-> TRUE, rtag |-> ""]
+\* the response / error an attempt carries is identified by the invocation that produced it (the harness plugins tag
+\* what they return with "<action>@<invocation number>"): the last attempt is always the record of the last invocation
+TagOf(o) == IF LastOf(mem[o]) \in {"ok", "tr", "perm"} /\ o \in DOMAIN ncall THEN o \o "@" \o ToString(ncall[o]) ELSE ""
+EvW(o) == [ev |-> "W", obj |-> o, k |-> KindOf(o), st |-> mem[o].st, natt |-> Len(mem[o].atts), last |-> LastOf(mem[o]), aok |-> TRUE, rtag |-> TagOf(o)]
 EvPS(a, n) == [ev |-> "PStart", obj |-> a, n |-> n, ov |-> FALSE]
 EvPE(a, n, out) == [ev |-> "PEnd", obj |-> a, n |-> n, out |-> out, rtag |-> "", ctxdone |-> FALSE]
 
